@@ -5,6 +5,7 @@ import ColoVerif.Model.DetPlaceChecked
 import ColoVerif.Model.Transp1d
 import ColoVerif.Model.TranspCostsChecked
 import ColoVerif.Model.Transp1dChecked
+import ColoVerif.Model.GridChecked
 import Driver.Common
 /-
 Driver for C07: replays the harness' operation streams through the CHECKED models.
@@ -48,6 +49,15 @@ Driver for C07: replays the harness' operation streams through the CHECKED model
                                            solve, toAssignment  (reoptCostsC, reoptTransportC)
   gi <nb> <nc> caps.. dems.. costs..    -> gi k0 k1 .. | gi throw:runtime_error     the same with the int-cost constructor
                                            (intTransportC)
+  gnew / greg <minX> <maxX> <minY> <maxY>   -> (nothing)       regions of a DensityGrid
+  gbuild <binSize>                      -> grid <nbX> <nbY> <limX..> <limY..> <binCapacity row-major..> / gtot <totalCapacity()>
+                                           DensityGrid(binSize, regions)   (Grid.DGrid.ofRegionsC, totalCapacityC)
+  gdem <d>*                             -> hinit <levelX> <levelY> <totalDemand()>   HierarchicalDensityPlacement(grid, demands)
+                                           (totalDemandC; the constructor itself is the unbounded `HState.init`: loops only)
+  gop rx|ry|cx|cy                       -> gop <levelX> <levelY> <nbBinsX> <nbBinsY> (<binUsage> <binCapacity>)* row-major
+                                           refineX / refineY / coarsenX / coarsenY   (refineXC …, usageSumC, binUsageC, groupCapacityC)
+  gupd (<w> <h> <fixed>)*               -> gupd <cellDemand>*   updateCellDemand(circuit): the `long long` areas narrowed to `int`
+                                           (circuitDemandsC)
 
 Outside an `xcase` a fault is printed in place as `fault <site>` (the in-domain streams
 must never show one).
@@ -67,6 +77,9 @@ structure DS where
   drows : List Row := []
   dcells : List (Int × Int × Int × Orient × Polarity) := []
   ds : Option DetPlace.State := none
+  gregs : List Rect := []
+  ggrid : Grid.DGrid := default
+  gst : Grid.HState := default
 
 def emit (d : DS) (st : State) (line : String) : DS × List String :=
   if d.inX then ({ d with st := st, held := line :: d.held }, []) else ({ d with st := st }, [line])
@@ -147,6 +160,19 @@ def pairsOf : List Rat → List (Rat × Rat)
 def chunks (n : Nat) : Nat → List Int → List (List Int)
   | 0, _ => []
   | k + 1, l => l.take n :: chunks n k (l.drop n)
+
+/-- `binUsage` and `binCapacity` of every bin of the current view, row-major, through the checked twins -/
+def gridViewC (asr : Bool) (s : Grid.HState) : Except Fault (List Int) :=
+  Grid.mapC (fun (p : Nat × Nat) =>
+      andThen (s.binUsageC asr p.1 p.2) fun u =>
+      andThen (s.grid.groupCapacityC ((s.hx.lim s.levelX).getD p.1 0) ((s.hx.lim s.levelX).getD (p.1 + 1) 0)
+        ((s.hy.lim s.levelY).getD p.2 0) ((s.hy.lim s.levelY).getD (p.2 + 1) 0)) fun c => .ok [u, c])
+    ((List.range s.nbX).flatMap fun i => (List.range s.nbY).map fun j => (i, j))
+  |>.map List.flatten
+
+def triples : List Int → List (Int × Int × Int)
+  | a :: b :: c :: rest => (a, b, c) :: triples rest
+  | _ => []
 
 def step (d : DS) : List String → DS × List String
   | ["variant", v] => ({ d with asr := v != "ndebug" }, [])
@@ -271,6 +297,49 @@ def step (d : DS) : List String → DS × List String
     match Transp.intTransportC d.asr (xs.take nb) ((xs.drop nb).take nc) (chunks nc nb (xs.drop (nb + nc))) with
     | .ok o => emit d d.st (showOutcome "gi" o)
     | .error f => fault d f
+  | ["gnew"] => ({ d with gregs := [] }, [])
+  | ["greg", a, b, c, e] => ({ d with gregs := d.gregs ++ [⟨int! a, int! b, int! c, int! e⟩] }, [])
+  | ["gbuild", bs] =>
+    if d.faulted then (d, []) else
+    match Grid.DGrid.ofRegionsC d.asr (int! bs) d.gregs with
+    | .error f => fault d f
+    | .ok g =>
+      match g.totalCapacityC with
+      | .error f => fault d f
+      | .ok t =>
+        let (d1, l1) := emit { d with ggrid := g } d.st
+          ("grid " ++ toString g.nbX ++ " " ++ toString g.nbY ++ " " ++ showInts (g.limX ++ g.limY ++ g.cap.flatten)).trimAscii.toString
+        let (d2, l2) := emit d1 d1.st ("gtot " ++ toString t)
+        (d2, l1 ++ l2)
+  | "gdem" :: ds =>
+    if d.faulted then (d, []) else
+    let s := Grid.HState.init d.ggrid (ds.map fun x => int! x)
+    match s.totalDemandC with
+    | .error f => fault d f
+    | .ok t => emit { d with gst := s } d.st ("hinit " ++ toString s.levelX ++ " " ++ toString s.levelY ++ " " ++ toString t)
+  | ["gop", o] =>
+    if d.faulted then (d, []) else
+    let r := match o with
+      | "rx" => d.gst.refineXC d.asr
+      | "ry" => d.gst.refineYC d.asr
+      | "cx" => d.gst.coarsenXC d.asr
+      | _ => d.gst.coarsenYC d.asr
+    match r with
+    | .error f => fault d f
+    | .ok s =>
+      -- check(): usage += binUsage(i, j) over the view, assert(usage == totalDemand())
+      match andThen (s.usageSumC d.asr) fun _ => gridViewC d.asr s with
+      | .error f => fault d f
+      | .ok v =>
+        emit { d with gst := s } d.st ("gop " ++ toString s.levelX ++ " " ++ toString s.levelY ++ " " ++ toString s.nbX ++ " " ++
+          toString s.nbY ++ " " ++ showInts v).trimAscii.toString
+  | "gupd" :: xs =>
+    if d.faulted then (d, []) else
+    let cells : List Cell := (triples (xs.map fun x => int! x)).map fun t =>
+      { w := t.1, h := t.2.1, x := 0, y := 0, orient := .N, fixed := decide (t.2.2 ≠ (0 : Int)), obstruction := false, pol := .ANY }
+    match Grid.circuitDemandsC { cells := cells, nets := [], rows := [] } with
+    | .error f => fault d f
+    | .ok ds => emit d d.st ("gupd " ++ showInts ds).trimAscii.toString
   | ["dnew"] => ({ d with drows := [], dcells := [], ds := none }, [])
   | ["drow", a, b, c, e, o] =>
     ({ d with drows := d.drows ++ [⟨⟨int! a, int! b, int! c, int! e⟩, Orient.ofCode (int! o).toNat⟩] }, [])
